@@ -445,10 +445,12 @@ def _mutate(m, o, s):
             getattr(o, "y" if isA else "z")
     elif m == 4:
         if isA and (attached or "bs" in st.dict):
-            o.bs.append(B(id=50, z=5))
+            s.info["n50"] = s.info.get("n50", 0) + 1  # a fresh primary key per application
+            o.bs.append(B(id=48 + 2 * s.info["n50"], z=5))
     elif m == 5:
         if isA:
-            B(id=51, z=6).a = o  # queued on o.bs when that collection is not loaded
+            s.info["n51"] = s.info.get("n51", 0) + 1
+            B(id=49 + 2 * s.info["n51"], z=6).a = o  # queued on o.bs when that collection is not loaded
         else:
             o.a = None
     elif m == 6:
